@@ -156,6 +156,22 @@ fn scenario(cfg: &RunCfg, saturate: bool) -> Outcome {
         eng.add_client(cl);
         all_reqs.push(reqs);
     }
+    // transient accept failures before / around the revocation: the loop must back off and go
+    // on (never stop by itself), and the revocation must still be noticed
+    if gen::ratio(1, 4) {
+        let n = 1 + gen::below(3);
+        with(|w| {
+            for _ in 0..n {
+                let f = match w.tape.below(3) {
+                    0 => sim_core::net::AcceptFault::Emfile,
+                    1 => sim_core::net::AcceptFault::Aborted,
+                    _ => sim_core::net::AcceptFault::Os(*w.tape.pick(&sim_core::net::TRANSIENT_ACCEPT_ERRNOS)),
+                };
+                w.net.accept_faults.push_back(f);
+            }
+        });
+        gen::count("probe.accept_faults_armed");
+    }
     let mut ex = Shutdown {
         revoke_at_step: u64::from(gen::below(if saturate { 120 } else { 250 })),
         steps: 0,
@@ -393,13 +409,13 @@ pub fn spec() -> PropertySpec {
     PropertySpec {
         id: "C13",
         level: "exploration",
-        rule: "Each run: the real server with a revocable permit and max_conns 1-3; 0..max_conns+1 simulated clients in mixed phases (never connected, idle keep-alive, head or body partially sent, handler running, response being read slowly) that never close by themselves; the revocation is one more scheduler action whose earliest step is drawn from the tape, so it lands at every await point of the accept loop and connection tasks; connects after the stopped signal; a stage in which every accept fails with EMFILE from some step on (the loop backs off 500 ms of virtual time per attempt) and the revocation must still stop the server within 10 virtual seconds. Verdicts by quiescence (nothing runnable, nothing in flight, no timer), never by timeout. Non-trivial = at least one client; distinct = distinct schedule hash.",
+        rule: "Each run: the real server with a revocable permit and max_conns 1-3; 0..max_conns+1 simulated clients in mixed phases (never connected, idle keep-alive, head or body partially sent, handler running, response being read slowly) that never close by themselves; the revocation is one more scheduler action whose earliest step is drawn from the tape, so it lands at every await point of the accept loop and connection tasks; connects after the stopped signal; in a quarter of the runs 1-3 transient accept failures (EMFILE, ECONNABORTED, ENFILE, ENOBUFS, ENOMEM, EPROTO, ENETDOWN, EHOSTUNREACH, ...) armed from the start - the loop must back off and carry on, never stop by itself; a stage in which every accept fails with EMFILE from some step on (the loop backs off 500 ms of virtual time per attempt) and the revocation must still stop the server within 10 virtual seconds. Verdicts by quiescence (nothing runnable, nothing in flight, no timer), never by timeout. Non-trivial = at least one client; distinct = distinct schedule hash.",
         scenarios: vec![
             Scenario { name: "c13.mixed", property: "C13", func: mixed, runs_quick: 400_000, runs_thorough: 10_000_000, doc: "mixed phases" },
             Scenario { name: "c13.accept_failing", property: "C13", func: accept_failing, runs_quick: 60_000, runs_thorough: 1_500_000, doc: "revocation while every accept fails with EMFILE (virtual 500 ms back-off)" },
             Scenario { name: "c13.saturated", property: "C13", func: saturated, runs_quick: 200_000, runs_thorough: 5_000_000, doc: "at least max_conns clients that stay connected: every slot is held when the permit is revoked" },
         ],
-        required_probes: vec!["probe.revoked", "probe.all_slots_held_at_quiescence", "probe.connect_after_stopped", "probe.request_served_after_revocation", "probe.revoked_during_accept_failures", "timer.sleep_for"],
+        required_probes: vec!["probe.revoked", "probe.all_slots_held_at_quiescence", "probe.connect_after_stopped", "probe.request_served_after_revocation", "probe.revoked_during_accept_failures", "timer.sleep_for", "fault.accept_other_errno"],
         components: components_server(),
         assumptions: vec![
             "bounded time is judged as 'before quiescence', i.e. without any further external event",
